@@ -59,7 +59,13 @@ def main(tier, seed, names):
     for name in names:
         mdir = os.path.join(SEEDED, name)
         meta = json.load(open(os.path.join(mdir, "meta.json")))
-        checks = meta.get("checks") or [meta["property"]]
+        checks = meta.get("checks")
+        if checks is None:
+            checks = [meta["property"]]
+        if not checks:
+            print("  %-28s no check expected to catch it (see meta.json)" % name)
+            rows.append((name, meta["property"], "not expected", meta.get("needs_to_manifest", "")[:200]))
+            continue
         try:
             wt = make_worktree(os.path.join(mdir, "patch.diff"))
         except Exception as e:
@@ -80,7 +86,9 @@ def main(tier, seed, names):
         finally:
             remove_worktree(wt)
     os.makedirs(os.path.join(core.VERIF_DIR, "selftest"), exist_ok=True)
-    with open(os.path.join(core.VERIF_DIR, "selftest", "mutants.json"), "w") as f:
-        json.dump({"tier": tier, "rows": rows}, f, indent=1)
+    with open(os.path.join(core.VERIF_DIR, "selftest", "mutants.jsonl"), "a") as f:
+        for r in rows:
+            f.write(json.dumps({"tier": tier, "seeded": r[0], "check": r[1], "result": r[2], "first_violation": r[3],
+                                "repo_head": subprocess.run(["git", "-C", "/repo", "rev-parse", "--short", "HEAD"], capture_output=True, text=True).stdout.strip()}) + "\n")
     print("selftest mutants: %d runs, %d missed" % (len(rows), missed))
     return 0 if missed == 0 else 1
